@@ -1,6 +1,7 @@
 package props
 
 import (
+	"bufio"
 	"bytes"
 	"fmt"
 	"hash/fnv"
@@ -17,6 +18,7 @@ import (
 	"sync/atomic"
 	"time"
 
+	"github.com/evolbioinfo/gotree/io/utils"
 	"github.com/evolbioinfo/gotree/support"
 	"github.com/evolbioinfo/gotree/tree"
 	"github.com/evolbioinfo/gotree/verifhook"
@@ -32,9 +34,9 @@ func init() {
 		NeedsCLI: true,
 		Count: func(c *Ctx) int {
 			if c.Thorough() {
-				return 4680
+				return 4860
 			}
-			return 312
+			return 324
 		},
 		Rule: "case = one threaded entry point (Compare plain/tips/identical-only, CompareWeighted, FBP, TBE, TBE with moved-taxa statistics) x one " +
 			"workload (8 trees x 12 taxa, 100 x 30, 400 x 60) x one delay policy at the verifhook points (none, random yield/sleep, one slow worker, " +
@@ -282,6 +284,28 @@ func c11Feed(items []c11Item, prefilled bool) (<-chan tree.Trees, func() bool) {
 		close(ch)
 		return ch, func() bool { return len(ch) == 0 }
 	}
+	allText := true
+	for _, it := range items {
+		allText = allText && it.err == nil
+	}
+	if allText && len(items)%2 == 1 {
+		// through the real multi-tree reader (its goroutine runs under the race detector too)
+		var b strings.Builder
+		for _, it := range items {
+			b.WriteString(it.text + "\n")
+		}
+		src := utils.ReadMultiTrees(bufio.NewReader(strings.NewReader(b.String())), utils.FORMAT_NEWICK)
+		out := make(chan tree.Trees)
+		var fin int32
+		go func() {
+			for t := range src {
+				out <- t
+			}
+			close(out)
+			atomic.StoreInt32(&fin, 1)
+		}()
+		return out, func() bool { return atomic.LoadInt32(&fin) == 1 }
+	}
 	ch := make(chan tree.Trees)
 	var fin int32
 	go func() {
@@ -402,8 +426,13 @@ func runC11(c *Ctx, idx int, o *Obs) {
 	nNormal := len(c11Fns) * len(c11Workloads) * len(c11Policies) // 84
 	nErr := 4 * 3 * 3                                             // 36
 	nCLI := 4 * 3 * 3                                             // 36: the commands, fed an erroneous stream
-	k := idx % (nNormal + nErr + nCLI)
-	rep := idx / (nNormal + nErr + nCLI)
+	nRace := len(c11RaceCmds)                                     // the commands themselves under the race detector
+	k := idx % (nNormal + nErr + nCLI + nRace)
+	rep := idx / (nNormal + nErr + nCLI + nRace)
+	if k >= nNormal+nErr+nCLI {
+		c11CLIRace(c, o, r, c11RaceCmds[k-nNormal-nErr-nCLI], rep)
+		return
+	}
 	if k >= nNormal+nErr {
 		k -= nNormal + nErr
 		c11CLIError(c, o, r, []string{"compare trees", "compare trees --weighted", "compute support fbp", "compute support tbe"}[k%4],
@@ -672,5 +701,62 @@ func c11CLIError(c *Ctx, o *Obs, r *rand.Rand, cmdline, et, pos string, rep int)
 			return
 		}
 		o.Check(res.Exit != 0, "error_not_reported", what+": exit status 0: the error did not reach the caller; stderr "+Trunc(res.Stderr, 300), inp, tag...)
+	}
+}
+
+var c11RaceCmds = []string{"compare trees", "compare trees --weighted", "compare trees --binary", "compare trees --rf", "compare trees -l", "compare edges",
+	"compute support fbp", "compute support tbe", "compute support tbe --moved-taxa --per-branches", "compute support classical", "compute support booster", "compute consensus"}
+
+// c11CLIRace runs the shipped command, built with -race, on a well-formed stream with several thread counts:
+// race reports of the child go to the race log of this chunk (the driver parses them), results must equal -t 1.
+func c11CLIRace(c *Ctx, o *Obs, r *rand.Rand, cmdline string, rep int) {
+	bin := os.Getenv("VERIF_GOTREE_RACE")
+	ntrees, ntax := gen.Pick(r, 30, 60, 100), gen.Pick(r, 12, 25, 40)
+	refText, boots := c11Trees(r, ntrees, ntax)
+	inp := fmt.Sprintf("gotree(-race build) %s\nref: %s\ntrees (%d):\n%s", cmdline, refText, len(boots), strings.Join(boots, "\n"))
+	o.Sample = Trunc(inp, 400)
+	o.Class = "cli-race/" + cmdline
+	o.SetFP("cli-race", cmdline, refText, strings.Join(boots, "\n"))
+	o.Nontrivial = true
+	c.Announce(inp)
+	if _, err := os.Stat(bin); err != nil {
+		o.Inconclusive = "no -race build of the gotree command: " + err.Error()
+		return
+	}
+	fr := tmpFile(c, "c11ref.nw", refText+"\n")
+	fb := tmpFile(c, "c11trees.nw", strings.Join(boots, "\n")+"\n")
+	env := []string{"GORACE=halt_on_error=0 log_path=" + c.Tmp + "/race-cli"}
+	var base []string
+	for _, th := range []int{1, 2, 8, 16} {
+		args := strings.Fields(cmdline)
+		switch {
+		case args[0] == "compare":
+			args = append(args, "-i", fr, "-c", fb)
+		case args[1] == "consensus":
+			args = append(args, "-i", fb)
+		default:
+			args = append(args, "-i", fr, "-b", fb, "--silent", "-l", "none")
+		}
+		args = append(args, "-t", fmt.Sprint(th), "--seed", "1")
+		res := runBin(c, bin, env, 120*time.Second, "", args...)
+		o.Ev("cli_race_runs", 1)
+		what := fmt.Sprintf("gotree %s -t %d (race build)", cmdline, th)
+		if res.TimedOut {
+			if res.CPU < 5 {
+				o.Fail("hang", fmt.Sprintf("%s: still there after 120 s having used %.2f CPU seconds (blocked)", what, res.CPU), inp, "fn", "cli "+cmdline)
+			} else {
+				o.Inconclusive = what + ": wall-clock watchdog"
+			}
+			return
+		}
+		if !o.Check(res.Exit == 0 && !res.Panic && !res.Signal, "cli_failed", what+": "+res.brief(), inp, "fn", "cli "+cmdline) {
+			return
+		}
+		lines := sortedLines(res.Stdout)
+		if th == 1 {
+			base = lines
+		} else {
+			o.Check(strings.Join(lines, "\n") == strings.Join(base, "\n"), "result_differs", what+": records differ from -t 1: "+firstDiff(strings.Join(base, "\n"), strings.Join(lines, "\n")), inp, "fn", "cli "+cmdline)
+		}
 	}
 }
